@@ -127,3 +127,16 @@ def report_to(ctx, cov):
     ctx.note('line_coverage', {'executable': n_exec, 'hit': n_hit})
     for u in unreached:
         ctx.note_set('unreached_lines', u)
+
+
+def module_cover(modules):
+    """Branch-reach audit over every function and class body defined in the given modules."""
+    import inspect
+    cov = Cover()
+    for mod in modules:
+        for name, obj in vars(mod).items():
+            if getattr(obj, '__module__', None) != mod.__name__:
+                continue
+            if inspect.isfunction(obj) or inspect.isclass(obj):
+                cov.add(obj, name)
+    return cov
